@@ -149,4 +149,15 @@ def shapes(tier, seed):
         S.append(SplitShape(f'dirs:{nm}', prog={'main.asm': prog}, files=files,
                             cfgargs=dict(origin=Sym('o0', 0, 0x1000), consts={'v2': c02.SYMS['v2'], 'o0': (0, 0x1000)}),
                             props=['C17'], binary=True, start=Sym('o0', 0, 0x1000), include_dirs=dirs, width=48, expect=['ok']))
+    # an #include in an unselected branch has no effect at all: it may name a file that is already included, that does
+    # not exist, or that is found in two directories
+    prog = [('org', ('v', 'o0'), None), ('instr', 'nop', None), ('data', '.byte', [('c', 7), ('lsb', ('v', 'v2'))]), ('data', '.byte', [('c', 9)])]
+    dead = {'already-included': '#include "a.asm"', 'missing': '#include "no_such_file.asm"', 'ambiguous': '#include "twice.asm"'}
+    for nm, inc in dead.items():
+        for opener in ('#if 0', '#ifdef NOT_DEFINED_ANYWHERE'):
+            files = {'main.asm': f'.org o0\nnop\n#include "a.asm"\n{opener}\n{inc}\n#else\n.byte 9\n#endif\n',
+                     'a.asm': '.byte 7, LSB(v2)\n', 'twice.asm': 'nop\n', 'lib/twice.asm': 'nop\n'}
+            S.append(SplitShape(f'dead-include:{nm}:{opener.split()[0][1:]}', prog={'main.asm': prog}, files=files,
+                                cfgargs=dict(origin=Sym('o0', 0, 0x1000), consts={'v2': c02.SYMS['v2'], 'o0': (0, 0x1000)}),
+                                props=['C17'], binary=True, start=Sym('o0', 0, 0x1000), include_dirs=['lib'], width=48, expect=['ok']))
     return S + reject_shapes()
